@@ -28,6 +28,7 @@ func runC06(c *an.Ctx) {
 	pendingMutationRule(c, "R06f")
 	r06g(c)
 	r06h(c)
+	r06i(c)
 }
 
 func before(a, b ssa.Instruction) bool { return an.CanReach(a, b) && !an.CanReach(b, a) }
@@ -552,4 +553,69 @@ func r06h(c *an.Ctx) {
 	if n == 0 {
 		c.Lost("roster.append in Manager.acquireTasks")
 	}
+}
+
+// R06i: releasing an environment's tasks clears their ownership. releaseTask may leave a task's parent in place only
+// when it refuses the request (no task, or a task locked by another environment): any other answer - success, or
+// "already released" - must have passed SetParent(nil). A task whose executor or agent was lost counts as "not locked"
+// but still points into the role tree of its environment.
+func r06i(c *an.Ctx) {
+	c.Rule("R06i", "releaseTask: every answer other than a refusal (nil task, locked by another environment) has cleared the task's parent", 1)
+	fn := c.MustFn("core/task", "Manager.releaseTask")
+	if fn == nil {
+		return
+	}
+	c.Subject()
+	var clears []ssa.Instruction
+	for _, ci := range an.Calls(fn, func(nm string, ci ssa.CallInstruction) bool { return an.MethodName(ci.Common()) == "SetParent" }) {
+		a := ci.Common().Args
+		if len(a) > 0 && an.IsNilConst(a[len(a)-1]) {
+			clears = append(clears, ci)
+		}
+	}
+	var bad []string
+	for _, r := range an.Returns(fn) {
+		if len(r.Results) != 1 {
+			continue
+		}
+		refusal := false
+		if mi, ok := an.RetVal(r, 0).(*ssa.MakeInterface); ok {
+			t := mi.X.Type().String()
+			if strings.HasSuffix(t, "TaskLockedError") || strings.HasSuffix(t, "TaskNotFoundError") {
+				refusal = true
+			}
+		}
+		if refusal {
+			continue
+		}
+		cleared := false
+		for _, cl := range clears {
+			if an.Dominates(cl, r) {
+				cleared = true
+			}
+		}
+		// nothing to clear when the parent is known to be nil already
+		if !cleared {
+			cleared = an.GuardedByAll(r.Block(), func(a an.Atom) bool {
+				if a.Op != token.EQL || a.Y == nil || !(an.IsNilConst(a.Y) || an.IsNilConst(a.X)) {
+					return false
+				}
+				for _, v := range []ssa.Value{a.X, a.Y} {
+					if call, isCall := v.(*ssa.Call); isCall && an.MethodName(&call.Call) == "GetParent" {
+						return true
+					}
+					if isFieldNamed(v, "parent") {
+						return true
+					}
+				}
+				return false
+			})
+		}
+		if !cleared {
+			bad = append(bad, c.PosStr(lastPos(r.Block())))
+		}
+	}
+	sort.Strings(bad)
+	c.Ob("(*core/task.Manager).releaseTask|parent-cleared-unless-refused", fn.Pos(), len(bad) == 0 && len(clears) > 0,
+		"releaseTask can answer without having cleared the task's parent and without refusing (returns at %v): the teardown reports the task as released while it still belongs to the role tree of the destroyed environment", bad)
 }
